@@ -355,6 +355,7 @@ func (r *runner) probe(i int, s step) string {
 // runHistory executes h in the main world and in the twin.
 func runHistory(h *history, noGC bool) *result {
 	res := &result{Labels: map[string]int{}}
+	wdStart(h)
 	r := &runner{h: h, res: res, noGC: noGC}
 	r.names[0], r.names[1] = map[string]int{}, map[string]int{}
 	var err error
